@@ -24,3 +24,6 @@ func (w *World) LogHash() string {
 	}
 	return hex.EncodeToString(h.Sum(nil))
 }
+
+// ResetCallIndex exists only because run.go is shared verbatim with simL.
+func ResetCallIndex() {}
